@@ -409,6 +409,22 @@ def run_model(lines, timeout=1800, shards=1):
     return res
 
 
+def wf_oracle(frames, shards=1, limit=3000):
+    """'1'/'0' per input: the Coq predicate wellformedb (extracted) for inputs up to `limit` bytes, an independent
+    Python reading of the same definition beyond (the model's closed-form checksum is quadratic in the length)."""
+    import gen
+    short = [(i, f) for i, f in enumerate(frames) if len(f) <= limit]
+    out = [None] * len(frames)
+    if short:
+        res = run_model(["WF " + gen.hx(f) for _, f in short], shards=shards)
+        for (i, _), r in zip(short, res):
+            out[i] = r
+    for i, f in enumerate(frames):
+        if out[i] is None:
+            out[i] = "1" if gen.wellformed_py(f) else "0"
+    return out
+
+
 def _unlimit_stack():
     import resource
     try:
